@@ -67,8 +67,10 @@ type PathCtx struct {
 	assign map[string]bool
 	blocks []int // block indices visited, for witnesses
 	phiSel map[*ssa.Phi]ssa.Value
-	P      *Prog
-	q      *PathQuery
+	// cells: last value stored on this path into a local scalar cell (named results spilled for defer)
+	cells map[*ssa.Alloc]ssa.Value
+	P     *Prog
+	q     *PathQuery
 }
 
 // PathCond is a branch condition with the truth value it has on the current path.
@@ -105,6 +107,14 @@ func (c *PathCtx) Known(key string) (bool, bool) {
 // resolve follows phis using the path's incoming edges.
 func (c *PathCtx) Resolve(v ssa.Value) ssa.Value {
 	for i := 0; i < 8; i++ {
+		if ld, isLd := v.(*ssa.UnOp); isLd && ld.Op == token.MUL && c.cells != nil {
+			if a, isA := ld.X.(*ssa.Alloc); isA {
+				if cv, have := c.cells[a]; have {
+					v = cv
+					continue
+				}
+			}
+		}
 		ph, ok := v.(*ssa.Phi)
 		if !ok {
 			return v
@@ -282,6 +292,7 @@ type pathState struct {
 	defers []*ssa.Defer
 	blocks []int
 	phiSel map[*ssa.Phi]ssa.Value
+	cells  map[*ssa.Alloc]ssa.Value
 }
 
 func assignKey(m map[string]bool) string {
@@ -358,7 +369,8 @@ func (q *PathQuery) Run() {
 			continue
 		}
 		visited[vk] = true
-		ctx := &PathCtx{K: q.K, assign: s.assign, blocks: s.blocks, phiSel: s.phiSel, P: q.P, q: q}
+		cells := s.cells
+		ctx := &PathCtx{K: q.K, assign: s.assign, blocks: s.blocks, phiSel: s.phiSel, cells: cells, P: q.P, q: q}
 		stop := false
 		st := s.st
 		defers := s.defers
@@ -392,6 +404,17 @@ func (q *PathQuery) Run() {
 			case *ssa.If, *ssa.Jump:
 				// handled below
 			default:
+				if sto, isSt := in.(*ssa.Store); isSt {
+					if a, isA := sto.Addr.(*ssa.Alloc); isA && !a.Heap {
+						nc := make(map[*ssa.Alloc]ssa.Value, len(cells)+1)
+						for k, v := range cells {
+							nc[k] = v
+						}
+						nc[a] = ctx.Resolve(sto.Val)
+						cells = nc
+						ctx.cells = cells
+					}
+				}
 				if q.Step != nil {
 					st, stop = q.Step(in, false, st, ctx)
 				}
@@ -406,7 +429,7 @@ func (q *PathQuery) Run() {
 			st := st
 			if q.AtBlock != nil {
 				// the edge's facts are visible to the client before a back edge forgets them
-				st = q.AtBlock(succ, st, &PathCtx{K: q.K, assign: assign, blocks: s.blocks, phiSel: s.phiSel, P: q.P, q: q})
+				st = q.AtBlock(succ, st, &PathCtx{K: q.K, assign: assign, blocks: s.blocks, phiSel: s.phiSel, cells: cells, P: q.P, q: q})
 			}
 			// back edge: forget conditions and phi selections defined inside the loop
 			if succ.Dominates(s.b) {
@@ -443,7 +466,7 @@ func (q *PathQuery) Run() {
 			if len(nb) > 400 {
 				nb = nb[len(nb)-400:]
 			}
-			stack = append(stack, pathState{b: succ, i: 0, st: st, assign: assign, defers: defers, blocks: nb, phiSel: ps})
+			stack = append(stack, pathState{b: succ, i: 0, st: st, assign: assign, defers: defers, blocks: nb, phiSel: ps, cells: cells})
 		}
 		switch t := term.(type) {
 		case *ssa.If:
@@ -469,6 +492,11 @@ func (q *PathQuery) Run() {
 				}
 			}
 			key, pol := q.K.condKey(t.Cond)
+			if rk, rpol, ok := ctx.resolvedNilKey(t.Cond); ok {
+				// a nil test of a merged value: recorded for the value merged in on this path, so
+				// that NilState of that value is known afterwards
+				key, pol = rk, rpol
+			}
 			if _, have := q.condByKey[key]; !have {
 				q.condByKey[key] = condRec{t.Cond, pol}
 			}
@@ -672,4 +700,43 @@ func allPathsReject(p *Prog, fn *ssa.Function, b *ssa.BasicBlock) (ok bool, n in
 	}
 	q.Run()
 	return n > 0 && bad == nil && !q.Exhausted, n, bad
+}
+
+// resolvedNilKey: for a branch condition `phi == nil` / `phi != nil` whose phi is selected on this
+// path, the condition key of the same test on the selected value.
+func (c *PathCtx) resolvedNilKey(cond ssa.Value) (string, bool, bool) {
+	pol := true
+	for {
+		if u, ok := cond.(*ssa.UnOp); ok && u.Op == token.NOT {
+			pol = !pol
+			cond = u.X
+			continue
+		}
+		break
+	}
+	b, ok := cond.(*ssa.BinOp)
+	if !ok || (b.Op != token.EQL && b.Op != token.NEQ) {
+		return "", false, false
+	}
+	var x ssa.Value
+	switch {
+	case isNilConst(b.Y):
+		x = b.X
+	case isNilConst(b.X):
+		x = b.Y
+	default:
+		return "", false, false
+	}
+	if _, isPhi := x.(*ssa.Phi); !isPhi {
+		return "", false, false
+	}
+	rx := c.Resolve(x)
+	if rx == x {
+		return "", false, false
+	}
+	rx = c.Resolve(deref(rx))
+	if b.Op == token.NEQ {
+		pol = !pol
+	}
+	return c.K.nilTestKey(rx), pol, true
 }
